@@ -334,3 +334,4 @@ def run(prog, res, tier):
     # readers compares whole strings (rule shared with C01 / C09)
     from rules import c09
     c09.r6_enum_item_match(prog, res)
+    c09.r8_search_bound_agrees(prog, res)
